@@ -45,6 +45,7 @@ func Catalogue() map[string]Script {
 			stray(77, 900), reply(2, 102), reply(2, 1020), reply(0, 100), stray(78, 901), reply(3, 103), reply(1, 101), reply(1, 1010))
 		mk("c01:late-reply-after-cancel", 4, 10, res(0, 1), start(0), wok(0), cancel(0), reply(0, 100),
 			res(1, 1), start(1), wok(1), reply(0, 1000), reply(1, 101))
+		mk("c02:runt-datagram-then-reply", 4, 0, res(0, 1), start(0), wok(0), Action{K: ARunt, Tag: 5}, reply(0, 100), res(1, 1), start(1), wok(1), Action{K: ARunt, Tag: 11}, Action{K: ARunt, Tag: 1}, reply(1, 101))
 		mk("c01:wrap", 4, 65535, res(0, 9), res(1, 9), res(2, 9), start(0), start(1), start(2), wok(0), wok(1), wok(2),
 			reply(1, 101), reply(2, 102), reply(0, 100))
 		mk("c01:skip-taken-ids", 8, 0, res(0, 1), res(1, 2), start(0), start(1), wok(0), wok(1), setq(0),
@@ -118,6 +119,7 @@ func RandomNext(r *hx.RNG, focus string, maxSteps int) (Script, func(v *View) *A
 			if w == nil {
 				w = []int{10, 2, 12, 12, 4, 16, 3, 3, 2, 5, 1, 1}
 			}
+			w = append(append([]int{}, w...), 2) // runt datagram (UDP scripts only)
 			tot := 0
 			for _, x := range w {
 				tot += x
@@ -161,9 +163,11 @@ func RandomNext(r *hx.RNG, focus string, maxSteps int) (Script, func(v *View) *A
 				a = Action{K: ASetQid, Wid: uint16(int(s.Nq0) + r.Range(-2, 4))}
 			case 11:
 				a = Action{K: AExpire}
+			case 12:
+				a = Action{K: ARunt, Tag: r.Range(1, 11)}
 			}
 			// reserve picks the next unused call id; the others pick among existing ones
-			if a.K != AReserve && a.K != AFeedStray && a.K != AFeedErr && a.K != AClose && a.K != ASetQid && a.K != AExpire {
+			if a.K != AReserve && a.K != AFeedStray && a.K != AFeedErr && a.K != AClose && a.K != ASetQid && a.K != AExpire && a.K != ARunt {
 				if nextCall == 0 {
 					continue
 				}
